@@ -2668,3 +2668,249 @@ func invCursorWithinLen(c *Ctx, r *Report, key string) bool {
 	}
 	return true
 }
+
+// ---- linear forms over SSA leaves -------------------------------------------------------------
+
+type linForm struct {
+	k  int64
+	cs map[ssa.Value]int64
+}
+
+func (a linForm) add(b linForm, sign int64) linForm {
+	r := linForm{k: a.k + sign*b.k, cs: map[ssa.Value]int64{}}
+	for v, c := range a.cs {
+		r.cs[v] += c
+	}
+	for v, c := range b.cs {
+		r.cs[v] += sign * c
+	}
+	for v, c := range r.cs {
+		if c == 0 {
+			delete(r.cs, v)
+		}
+	}
+	return r
+}
+
+// linOf renders v as a linear form over leaves (parameters, loads, calls, phis); conversions that cannot lose
+// bits and +,- and multiplication by a constant are followed. Leaves that are loads of the same field compare equal
+// through canonical representatives.
+func linOf(v ssa.Value, canon func(ssa.Value) ssa.Value, depth int) linForm {
+	if depth > 8 {
+		return linForm{cs: map[ssa.Value]int64{canon(v): 1}}
+	}
+	switch x := v.(type) {
+	case *ssa.Const:
+		if x.Value != nil && x.Value.Kind() == constant.Int {
+			if n, ok := constant.Int64Val(x.Value); ok {
+				return linForm{k: n, cs: map[ssa.Value]int64{}}
+			}
+		}
+	case *ssa.Convert:
+		if isIntType(x.Type()) && isIntType(x.X.Type()) && typeBits(x.Type()) >= typeBits(x.X.Type()) {
+			return linOf(x.X, canon, depth+1)
+		}
+	case *ssa.BinOp:
+		switch x.Op {
+		case token.ADD:
+			return linOf(x.X, canon, depth+1).add(linOf(x.Y, canon, depth+1), 1)
+		case token.SUB:
+			return linOf(x.X, canon, depth+1).add(linOf(x.Y, canon, depth+1), -1)
+		case token.MUL:
+			if cs, ok := constSet(x.Y, 0); ok && len(cs) == 1 {
+				l := linOf(x.X, canon, depth+1)
+				r := linForm{k: l.k * cs[0], cs: map[ssa.Value]int64{}}
+				for v, c := range l.cs {
+					r.cs[v] = c * cs[0]
+				}
+				return r
+			}
+		}
+	}
+	return linForm{cs: map[ssa.Value]int64{canon(v): 1}}
+}
+
+// ruleG3Lin — a slice made in the function with a linear length L and indexed by counter±c inside a counted loop
+// `for i := lo; i < / <= hi`: the largest index must be below L for every value of the free quantities that the
+// dominating tests allow.
+func ruleG3Lin(c *Ctx, r *Report, scope map[*ssa.Function]bool) int {
+	var fns []*ssa.Function
+	for f := range scope {
+		fns = append(fns, f)
+	}
+	sort.Slice(fns, func(i, j int) bool { return fns[i].String() < fns[j].String() })
+	n := 0
+	for _, f := range fns {
+		if f.Synthetic != "" {
+			continue
+		}
+		var reps []ssa.Value
+		canon := func(v ssa.Value) ssa.Value {
+			for _, q := range reps {
+				if sameSSA(q, v) {
+					return q
+				}
+			}
+			reps = append(reps, v)
+			return v
+		}
+		seen := map[string]bool{}
+		for _, b := range f.Blocks {
+			for _, ins := range b.Instrs {
+				ia, ok := ins.(*ssa.IndexAddr)
+				if !ok {
+					continue
+				}
+				if _, isSl := ia.X.Type().Underlying().(*types.Slice); !isSl {
+					continue
+				}
+				mk := sliceOrigin(f, ia.X, 0)
+				if mk == nil {
+					continue
+				}
+				// index linear in a loop counter (not the bare counter: that is G3)
+				idx := stripConv(ia.Index)
+				if _, isPhi := idx.(*ssa.Phi); isPhi {
+					continue
+				}
+				il := linOf(idx, canon, 0)
+				var ctr ssa.Value
+				var bound ssa.Value
+				incl := false
+				for v, co := range il.cs {
+					if b2, in2, ok := inductionBound(v); ok && co == 1 {
+						ctr, bound, incl = v, b2, in2
+					}
+				}
+				if ctr == nil {
+					continue
+				}
+				key := fmt.Sprintf("%s:%s[%s] in %s", SSAFuncName(f), srcOf(f, mk.Pos(), "make", exprText(c, mk)), idxText(c, f, ia.Pos()), srcOf(f, ia.Pos(), "loop", "loop"))
+				if seen[key] {
+					continue
+				}
+				seen[key] = true
+				// largest index: counter -> hi
+				hi := linOf(bound, canon, 0)
+				if !incl {
+					hi.k--
+				}
+				rest := linForm{k: il.k, cs: map[ssa.Value]int64{}}
+				for v, co := range il.cs {
+					if v != ctr {
+						rest.cs[v] = co
+					}
+				}
+				imax := hi.add(rest, 1)
+				L := linOf(mk.Len, canon, 0)
+				d := imax.add(L, -1) // need d + 1 <= 0
+				d.k++
+				// bound the free quantities
+				max := d.k
+				unbounded := ""
+				for v, co := range d.cs {
+					if co > 0 {
+						if ub, ok := upperBoundAt(v, mk.Block()); ok {
+							max += co * ub
+						} else {
+							unbounded = valText(c, v)
+						}
+					} else {
+						lb, ok := lowerBoundAt(v, mk.Block(), 0)
+						if !ok {
+							lb = 0
+							if !nonNegative(v) {
+								unbounded = valText(c, v)
+							}
+						}
+						max += co * lb
+					}
+				}
+				n++
+				switch {
+				case unbounded != "" && anyPositive(d):
+					r.Bad("G3", key, c.Pos(ia.Pos()), fmt.Sprintf("the largest index minus the length the slice was made with grows with %s, which no dominating test bounds: index out of range", unbounded))
+				case unbounded != "":
+					n--
+					seen[key] = false // undetermined: not an obligation of this rule
+				case max <= 0:
+					r.OK("G3", key, c.Pos(ia.Pos()), "the largest index is below the length the slice was made with for every value the dominating tests allow")
+				default:
+					r.Bad("G3", key, c.Pos(ia.Pos()), fmt.Sprintf("the largest index can exceed the length the slice was made with by %d", max))
+				}
+			}
+		}
+	}
+	return n
+}
+
+func anyPositive(d linForm) bool {
+	for _, co := range d.cs {
+		if co > 0 {
+			return true
+		}
+	}
+	return false
+}
+
+// ruleLastInterval (C11) — the segmenter's last sample interval ends at the track's sample count itself
+// (interval ends are inclusive): nothing is dropped at the end.
+func ruleLastInterval(c *Ctx, r *Report) {
+	f := c.ssaFunc(r, "O-LAST", "examples/segmenter", "getSegmentIntervals")
+	if f == nil {
+		return
+	}
+	key := "examples/segmenter.getSegmentIntervals:last-interval-end"
+	sts := storesTo(f, "sampleInterval.endNr")
+	if len(sts) == 0 {
+		r.Undecided("O-LAST", key, c.Pos(f.Pos()), "no store to sampleInterval.endNr")
+		return
+	}
+	isCount := func(v ssa.Value) bool {
+		v = stripConv(v)
+		if isDirectFieldLoad(v, "StszBox.SampleNumber") {
+			return true
+		}
+		if call, ok := v.(*ssa.Call); ok && strings.HasSuffix(calleeName(call.Common()), "StszBox.GetNrSamples") {
+			return true
+		}
+		return false
+	}
+	for _, st := range sts {
+		var leaves []ssa.Value
+		var visit func(v ssa.Value, d int)
+		seen := map[ssa.Value]bool{}
+		visit = func(v ssa.Value, d int) {
+			if d > 6 || seen[v] {
+				return
+			}
+			seen[v] = true
+			if phi, ok := v.(*ssa.Phi); ok {
+				for _, e := range phi.Edges {
+					visit(e, d+1)
+				}
+				return
+			}
+			leaves = append(leaves, v)
+		}
+		visit(st.Val, 0)
+		ok := false
+		bad := ""
+		for _, l := range leaves {
+			if isCount(l) {
+				ok = true
+			}
+			if bo, isBo := stripConv(l).(*ssa.BinOp); isBo && (isCount(bo.X) || isCount(bo.Y)) {
+				bad = "the end of the last interval is the sample count " + bo.Op.String() + " " + valText(c, bo.Y) + ", not the count: with inclusive interval ends the last sample of every track is dropped"
+			}
+		}
+		switch {
+		case bad != "":
+			r.Bad("O-LAST", key, c.Pos(st.Pos()), bad)
+		case ok:
+			r.OK("O-LAST", key, c.Pos(st.Pos()), "the last interval ends at the track's sample count (inclusive end)")
+		default:
+			r.Bad("O-LAST", key, c.Pos(st.Pos()), "no interval end is the track's sample count: the tail of the track is not covered")
+		}
+	}
+}
